@@ -130,3 +130,158 @@ Fixpoint send_history (chan : Z) (ms : list message) (st : txst) : option (list 
       end
     end
   end.
+
+(* ------------------------------------------------------------------ interrupted sends
+   The context passed to QueuePackage / SendRemainingPackets / SendPackage may be done, or become done
+   while the packets are written.  Budget: None = the context stays live; Some k = it is done once k
+   (more) packets have been written.  sendPackets looks at the context at the head of EVERY loop iteration,
+   before it looks whether the packet is the one under the write position; with an empty queue the body never
+   runs and there is no error.  The deferred discardSent(sent) runs on every path. *)
+Definition bdone (b : option nat) : bool := match b with Some O => true | _ => false end.
+Definition bdec (b : option nat) : option nat := match b with Some (S k) => Some k | _ => b end.
+Definition bsub (b : option nat) (n : nat) : option nat := match b with Some k => Some (k - n)%nat | None => None end.
+
+(* result: writes, packet counter, number of packets sent, error flag *)
+Fixpoint send_loop_b (ps chan typ : Z) (only_full : bool) (ipq idq : Z) (i : Z) (pk : list packet) (nr : Z)
+  (b : option nat) : option (list bytes * Z * Z * bool) :=
+  match pk with
+  | [] => Some ([], nr, 0, false)
+  | p :: r =>
+    if bdone b then Some ([], nr, 0, true) else
+    if i =? ipq then
+      if only_full then Some ([], nr, 0, false)
+      else
+        if (idq <? 0) || (zlen (pdata p) <? idq) then None else
+        let p' := {| plen := (hdr_size + idq) mod 65536; pdata := ztake idq (pdata p) |} in
+        match send_packet ps chan typ true nr p' with
+        | None => None
+        | Some (bs, nr1) =>
+          match send_loop_b ps chan typ only_full ipq idq (i + 1) r nr1 (bdec b) with
+          | None => None
+          | Some (outs, nr2, sent, e) => Some (bs :: outs, nr2, sent + 1, e)
+          end
+        end
+    else
+      match send_packet ps chan typ false nr p with
+      | None => None
+      | Some (bs, nr1) =>
+        match send_loop_b ps chan typ only_full ipq idq (i + 1) r nr1 (bdec b) with
+        | None => None
+        | Some (outs, nr2, sent, e) => Some (bs :: outs, nr2, sent + 1, e)
+        end
+      end
+  end.
+
+Definition send_packets_b (ps chan typ : Z) (only_full : bool) (st : txst) (b : option nat)
+  : option (list bytes * txst * bool) :=
+  match send_loop_b ps chan typ only_full (ip (tq st)) (id (tq st)) 0 (pkts (tq st)) (tnr st) b with
+  | None => None
+  | Some (outs, nr', sent, e) =>
+    match discard_sent sent (tq st) with
+    | None => None
+    | Some q' => Some (outs, {| tq := q'; tnr := nr' |}, e)
+    end
+  end.
+
+(* QueuePackage: the package is written into the queue whatever the context says; the error of
+   sendPackets is returned, the queue keeps what was not sent *)
+Definition queue_package_b (ps chan typ : Z) (chunks : list bytes) (st : txst) (b : option nat)
+  : option (list bytes * txst * bool) :=
+  match write_chunks ps chunks (tq st) with
+  | None => None
+  | Some q' => send_packets_b ps chan typ true {| tq := q'; tnr := tnr st |} b
+  end.
+
+(* SendRemainingPackets: reset is deferred, it also runs when sendPackets returns an error:
+   whatever was not sent is thrown away, the message is abandoned *)
+Definition send_remaining_b (ps chan typ : Z) (st : txst) (b : option nat) : option (list bytes * txst * bool) :=
+  match send_packets_b ps chan typ false st b with
+  | None => None
+  | Some (outs, st', e) => Some (outs, {| tq := reset (tq st'); tnr := tnr st' |}, e)
+  end.
+
+(* SendPackage: QueuePackage; on error return it (no flush, no reset); else SendRemainingPackets
+   with the same context *)
+Definition send_package_b (ps chan typ : Z) (chunks : list bytes) (st : txst) (b : option nat)
+  : option (list bytes * txst * bool) :=
+  match queue_package_b ps chan typ chunks st b with
+  | None => None
+  | Some (o1, st1, true) => Some (o1, st1, true)
+  | Some (o1, st1, false) =>
+    match send_remaining_b ps chan typ st1 (bsub b (length o1)) with
+    | None => None
+    | Some (o2, st2, e) => Some (o1 ++ o2, st2, e)
+    end
+  end.
+
+Inductive call :=
+| CQueue (chunks : list bytes) (b : option nat)
+| CSendPkg (chunks : list bytes) (b : option nat)
+| CFlush (b : option nat).
+
+Definition run_call (ps chan typ : Z) (c : call) (st : txst) : option (list bytes * txst * bool) :=
+  match c with
+  | CQueue chunks b => queue_package_b ps chan typ chunks st b
+  | CSendPkg chunks b => send_package_b ps chan typ chunks st b
+  | CFlush b => send_remaining_b ps chan typ st b
+  end.
+
+(* observation per call: the writes, the error flag, whether packets stay queued *)
+Definition obs_call : Type := (list bytes * bool * bool)%type.
+Definition pending (st : txst) : bool := negb (npk (tq st) =? 0).
+
+Fixpoint run_calls (ps chan typ : Z) (cs : list call) (st : txst) : option (list obs_call * txst) :=
+  match cs with
+  | [] => Some ([], st)
+  | c :: r =>
+    match run_call ps chan typ c st with
+    | None => None
+    | Some (o, st1, e) =>
+      match run_calls ps chan typ r st1 with
+      | None => None
+      | Some (os, st2) => Some ((o, e, pending st1) :: os, st2)
+      end
+    end
+  end.
+
+Record segment := { g_ps : Z; g_typ : Z; g_calls : list call }.
+
+Fixpoint run_segments (chan : Z) (gs : list segment) (st : txst) : option (list (list obs_call) * txst) :=
+  match gs with
+  | [] => Some ([], st)
+  | g :: r =>
+    match run_calls (g_ps g) chan (g_typ g) (g_calls g) st with
+    | None => None
+    | Some (o, st1) =>
+      match run_segments chan r st1 with
+      | None => None
+      | Some (os, st2) => Some (o :: os, st2)
+      end
+    end
+  end.
+
+(* a message whose QueuePackage calls may be interrupted (errors ignored by the client, which goes on),
+   all writes concatenated *)
+Fixpoint queue_all_b (ps chan typ : Z) (pkgs : list (list bytes * option nat)) (st : txst) : option (list bytes * txst) :=
+  match pkgs with
+  | [] => Some ([], st)
+  | (c, b) :: r =>
+    match queue_package_b ps chan typ c st b with
+    | None => None
+    | Some (o1, st1, _) =>
+      match queue_all_b ps chan typ r st1 with
+      | None => None
+      | Some (o2, st2) => Some (o1 ++ o2, st2)
+      end
+    end
+  end.
+
+Definition send_message_b (ps chan typ : Z) (pkgs : list (list bytes * option nat)) (st : txst) : option (list bytes * txst) :=
+  match queue_all_b ps chan typ pkgs st with
+  | None => None
+  | Some (o1, st1) =>
+    match send_remaining ps chan typ st1 with
+    | None => None
+    | Some (o2, st2) => Some (o1 ++ o2, st2)
+    end
+  end.
